@@ -1,15 +1,18 @@
 package main
 
 import (
-	"go/token"
 	"flag"
 	"fmt"
+	"go/token"
+	"go/types"
 	"os"
 	"reflect"
 	"sort"
 	"strconv"
 	"strings"
 	"time"
+
+	"golang.org/x/tools/go/ssa"
 )
 
 // property id -> rule functions
@@ -235,6 +238,49 @@ func listFuncs(p *Program) {
 	sort.Strings(sn)
 	for _, n := range sn {
 		fmt.Printf("\t%q: %q,\n", n, sigs[n])
+	}
+	fmt.Println("}")
+	// the fields of the module's struct types and their types: lets a later tree that renamed a field be matched
+	fmt.Println("\n// knownFields: the fields of the module's struct types (resolveFieldRenames).\nvar knownFields = map[string]string{")
+	var fl []string
+	fields := map[string]string{}
+	for _, pk := range p.Pkgs {
+		scope := pk.Types.Scope()
+		for _, tn := range scope.Names() {
+			obj, ok := scope.Lookup(tn).(*types.TypeName)
+			if !ok {
+				continue
+			}
+			if st, ok := obj.Type().Underlying().(*types.Struct); ok {
+				for i := 0; i < st.NumFields(); i++ {
+					k := tn + "." + st.Field(i).Name()
+					fields[k] = st.Field(i).Type().String()
+					fl = append(fl, k)
+				}
+			}
+		}
+	}
+	sort.Strings(fl)
+	for _, k := range fl {
+		fmt.Printf("\t%q: %q,\n", k, fields[k])
+	}
+	fmt.Println("}")
+	fmt.Println("\n// knownGlobals: the package-level variables of the module (resolveGlobalRenames).\nvar knownGlobals = map[string]string{")
+	var gl []string
+	globals := map[string]string{}
+	for _, pk := range p.Pkgs {
+		if sp := p.SSAPkgs[pk.PkgPath]; sp != nil {
+			for name, m := range sp.Members {
+				if g, ok := m.(*ssa.Global); ok && !strings.HasPrefix(name, "init$") {
+					globals[pk.PkgPath+"."+name] = g.Type().String()
+					gl = append(gl, pk.PkgPath+"."+name)
+				}
+			}
+		}
+	}
+	sort.Strings(gl)
+	for _, k := range gl {
+		fmt.Printf("\t%q: %q,\n", k, globals[k])
 	}
 	fmt.Println("}")
 }
